@@ -346,7 +346,10 @@ def locate(module, qualname):
     Returns (node, module, cls)."""
     m = get_module(module)
     key = None
-    if qualname.endswith(']'):
+    setter = False
+    if qualname.endswith('[setter]'):           # 'Class.prop[setter]': the @prop.setter method
+        qualname, setter = qualname[:-len('[setter]')], True
+    elif qualname.endswith(']'):
         qualname, key = qualname[:-1].split('[', 1)
         key = ast.literal_eval(key)
     parts = qualname.split('.')
@@ -356,6 +359,9 @@ def locate(module, qualname):
         found = None
         for n in _walk_defs(scope_body):
             if isinstance(n, (ast.FunctionDef, ast.ClassDef)) and n.name == p:
+                if setter and i == len(parts) - 1 and not any(
+                        isinstance(d, ast.Attribute) and d.attr == 'setter' for d in n.decorator_list):
+                    continue
                 found = n
                 break
             if isinstance(n, ast.Assign) and isinstance(n.targets[0], ast.Name) and \
